@@ -197,6 +197,11 @@ def answer (w : List String) : String :=
     | "twoLevel" => ob (twoLevel_uses st (stOf (w.getD 3 "DISK")))
     | "revolve" => ob (revolve_uses st (i 3) (if w.getD 4 "-" = "-" then none else some (i 4)))
     | _ => "bad-request"
+  | some "alloc" =>
+    -- alloc max_n ram disk ww rw dw trajectory
+    match allocate_snapshots fuel (i 1) (i 2) (i 3) (ratOf (w.getD 4 "1")) (ratOf (w.getD 5 "1")) (ratOf (w.getD 6 "0")) (w.getD 7 "maximum") with
+    | .ok (ws, al) => String.intercalate "," (ws.map ratStr) ++ " " ++ String.intercalate "," (al.map stName)
+    | .error e => "raise:" ++ errStr e
   | some "revObj" =>
     -- revObj H|D|P|R max_n ram disk uf ub wd rd : the generated constructor, then the generated iterator on its fields
     let uf := ratOf (w.getD 5 "1")
